@@ -58,6 +58,12 @@ class C07(Prop):
             for walk in ("direct", "compare"):
                 out.append({"stream": "cmp", "tag": "rnd:" + walk,
                             "input": {"a": a, "b": b, "walk": walk, "setters": st}})
+        # unusual but legal keys: the empty string, a blank, a digit string (item access by such a key must still
+        # reach the entry; nothing below it may be skipped)
+        for _ in range(120 if quick else 3000):
+            a, b = CC.gen_pair(rng, rng.choice([2, 3]), dict, keys=["", "a", " ", "0", "b"])
+            for walk in ("direct", "compare"):
+                out.append({"stream": "cmp", "tag": "oddkeys:" + walk, "input": {"a": a, "b": b, "walk": walk, "setters": []}})
         # lists whose items collide under str(): 1 / "1", 1.0 / "1.0", True / "True", "" next to records,
         # nested dicts in different key order (the zone of the known finding C07/str-keys)
         pool = [1, "1", 1.0, "1.0", True, "True", "", None, "None", {"k": 1}, {"k": 1, "n": 2}, {"n": 2, "k": 1},
